@@ -143,7 +143,12 @@ class SimTransport(object):
             if p.get("silent"):
                 raise EXC[p.get("exc", "OSError")]()           # an exception whose str() is empty
             raise EXC[p.get("exc", "OSError")]("dsim: handler fault for %r" % (u,))
-        return self._serve("handler", u)
+        doc = self._serve("handler", u)
+        if p and p.get("returns"):
+            self._fire("handler_returned_text")
+            text = json.dumps(doc)
+            return text if p["returns"] == "str" else text.encode("utf-8")
+        return doc
 
     # -- route 2: urllib ----------------------------------------------------
     def urlopen(self, uri, *a, **k):
